@@ -9,7 +9,7 @@ def replay(cex):
     import pgradd.ThermoChem  # noqa: F401
     from pgradd.GroupAdd.Library import GroupLibrary
     w = cex['witness'][-1]
-    lib = GroupLibrary.Load('BensonGA')
+    lib = GroupLibrary.Load(w.get('lib', 'BensonGA'))
     da, db = dict(lib.GetDescriptors(w['a'])), dict(lib.GetDescriptors(w['b']))
     want = dict(da)
     for k, v in db.items():
